@@ -33,8 +33,8 @@ theorem find_append_single (D : List Elem) (x : Elem) (id : Nat) :
   | some v => rfl
   | none =>
     by_cases h : x.id = id
-    · simp [List.find?_cons, h]
-    · simp [List.find?_cons, h]
+    · simp [h]
+    · simp [h]
 
 /-- the cache keeps describing the entries in front of the cursor when entries with new, pairwise different ids are
     appended there -/
@@ -128,7 +128,7 @@ theorem inflightLoop_cons (C : Codec) (now idx : Nat) (v : Elem) (bs : List Byte
   have hid : (ops C).id v = v.id := rfl
   by_cases hz : a.q.ie = 0
   · have hvv : (ops C).refresh v now a.q.ie = v := by rw [hz]; rfl
-    simp only [inflightLoop, hd, hid, inflAcc, hvv, hz]
+    simp only [inflightLoop, hd, hid, inflAcc, hz]
     rfl
   · have hz1 : (a.q.ie != 0) = true := by simp [hz]
     simp only [inflightLoop, hd, hid, inflAcc, hz1, if_true]
@@ -177,7 +177,6 @@ theorem inflightLoop_sim (C : Codec) (now ie : Nat) (rest : List Elem) (n idx : 
         · rw [i3]; simp [inflAcc, hr]
         · rw [i4]
           simp only [inflAcc, hr, List.length_cons, cacheAdd_cons, RQ.mk.injEq, true_and, and_true]
-          trace_state
           omega
         · rw [i5]; simp [inflAcc]
         · intro D hD
@@ -196,5 +195,767 @@ theorem inflightLoop_sim (C : Codec) (now ie : Nat) (rest : List Elem) (n idx : 
               rw [set_map_enc, set_len_append' D v _ rest idx hD]
               simpa using Issues.nil _ _
           · simpa using h6
+
+theorem qreadInflight_eq (q : Q) (now m : Nat) (hr : q.rest ≠ []) :
+    q.readInflight now m =
+      ({ q with done := q.done ++ (Queue.inflightLoop now q.ie (min m q.items.length) q.rest).1,
+                rest := (Queue.inflightLoop now q.ie (min m q.items.length) q.rest).2.1,
+                drained := q.drained || (Queue.inflightLoop now q.ie (min m q.items.length) q.rest).2.2 },
+       (Queue.inflightLoop now q.ie (min m q.items.length) q.rest).1) := by
+  have he : (q.items.isEmpty || q.rest.isEmpty) = false := by
+    cases hq : q.rest with
+    | nil => exact absurd hq hr
+    | cons x xs => simp [Q.items, hq]
+  simp only [Q.readInflight, he, Bool.false_eq_true, if_false]
+
+theorem nzIds_map_refresh (now ie : Nat) (l : List Elem) : nzIds (l.map (Queue.refresh now ie)) = nzIds l := by
+  induction l with
+  | nil => rfl
+  | cons x l ih =>
+    simp only [nzIds, List.map_cons, List.filter_cons] at ih ⊢
+    by_cases hx : x.id = 0
+    · simp [Queue.refresh, hx, ih]
+    · simp [Queue.refresh, hx, ih]
+
+theorem nzIds_of_all_nz {l : List Elem} (h : ∀ e ∈ l, e.id ≠ 0) : nzIds l = l.map (·.id) := by
+  simp only [nzIds]
+  rw [List.filter_eq_self.2]
+  intro e he
+  simp [h e he]
+
+/-- an id in use behind the cursor is not in use in front of it -/
+theorem find_done_none_of_mem_rest {done rest : List Elem} (hn : (nzIds (done ++ rest)).Nodup) {y : Elem} (hy : y ∈ rest)
+    (hy0 : y.id ≠ 0) : done.find? (fun z => z.id == y.id) = none := by
+  rw [List.find?_eq_none]
+  intro z hz hzid
+  simp only [beq_iff_eq] at hzid
+  rw [nzIds_append] at hn
+  have := (List.nodup_append.1 hn).2.2 z.id (mem_nzIds_of_mem hz (by rw [hzid]; exact hy0)) y.id (mem_nzIds_of_mem hy hy0)
+  exact this hzid
+
+theorem window_eq (C : Codec) (rq : RQ) (ds : Dataset) (q : Q) (h : Sim C rq ds q) (n : Nat) (hn : 0 < n) :
+    lrange (q.items.map C.enc) (rq.cur : Int) (((rq.cur + n : Nat) : Int) - 1) = (q.rest.take n).map C.enc := by
+  rw [lrange_window _ _ _ hn, h.cur, ← List.map_drop, ← List.map_take]
+  simp [Q.items]
+
+/-- `ReadInflight(maxSize)`: the same returned elements, no notifier calls, and the relation is kept -/
+theorem sim_readInflight (C : Codec) (rq : RQ) (ds : Dataset) (q : Q) (now m : Nat) (h : Sim C rq ds q) :
+    (readInflight (ops C) rq ds now m).evs.map evOf = [] ∧
+    (readInflight (ops C) rq ds now m).ret = (q.readInflight now m).2 ∧
+    (readInflight (ops C) rq ds now m).status = .ok ∧
+      Sim C (readInflight (ops C) rq ds now m).q (applyAll ds (readInflight (ops C) rq ds now m).cmds)
+        (q.readInflight now m).1 := by
+  have hinv := Queue.step_inv q (.readInflight now m) trivial h.inv
+  simp only [Queue.step] at hinv
+  have hl := h.len
+  have hcu := h.cur
+  simp only [Q.items, List.length_append] at hl
+  by_cases hr : q.rest = []
+  · -- nothing behind the cursor: the drain is complete
+    have hc : rq.len = 0 ∨ rq.cur ≥ rq.len := by right; rw [hl, hcu, hr]; simp
+    have he : (q.items.isEmpty || q.rest.isEmpty) = true := by simp [hr]
+    simp only [Q.readInflight, he, if_true] at hinv ⊢
+    simp only [readInflight, hc, if_true]
+    refine ⟨by first | rfl | trivial, by first | rfl | trivial, trivial, ?_⟩
+    exact ⟨h.nodup, h.list, h.len, h.cur, h.cache, rfl, h.closed, h.max, h.ie, h.limit, h.tags, h.ids, hinv⟩
+  · have hrl : 0 < q.rest.length := List.length_pos_iff.2 hr
+    have hc : ¬ (rq.len = 0 ∨ rq.cur ≥ rq.len) := by omega
+    rw [qreadInflight_eq q now m hr] at hinv ⊢
+    by_cases hm : m = 0
+    · subst hm
+      simp only [readInflight, hc, if_false, if_true, Nat.zero_min, Queue.inflightLoop, List.append_nil, Bool.or_false]
+      exact ⟨by first | rfl | trivial, by first | rfl | trivial, trivial, h⟩
+    · have hmpos : 0 < m := Nat.pos_of_ne_zero hm
+      have hwin : lrange (q.items.map C.enc) (rq.cur : Int) (((rq.cur + m : Nat) : Int) - 1)
+          = (q.rest.take (min m q.items.length)).map C.enc := by
+        rw [window_eq C rq ds q h m hmpos, take_min_of_le]
+        simp [Q.items]
+      obtain ⟨i1, -, i3, i4, cs, i5, i6⟩ := inflightLoop_sim C now q.ie q.rest (min m q.items.length) rq.cur { q := rq } h.ie
+      obtain ⟨pre, s1, s2, s3, -⟩ := Queue.inflightLoop_spec now q.ie (min m q.items.length) q.rest
+      simp only [readInflight, hc, if_false, hm, h.list, hwin, i1, Bool.false_eq_true]
+      refine ⟨by first | rfl | trivial, i3.trans (by simp), by first | rfl | trivial, ?_⟩
+      generalize Queue.inflightLoop now q.ie (min m q.items.length) q.rest = L at *
+      obtain ⟨out, rest', d⟩ := L
+      simp only at s1 s2 i3 i4 i5 i6 hinv ⊢
+      have hiss : Issues rq.key (Cmd.lrange rq.key (rq.cur : Int) (((rq.cur + m : Nat) : Int) - 1) :: cs)
+          (q.items.map C.enc) ((q.done ++ out ++ rest').map C.enc) :=
+        Issues.cons (by simp [QCmd]) (by simpa [lstep, Q.items] using i6 q.done hcu.symm)
+      obtain ⟨l1, l2⟩ := hiss.listAt ds h.nodup h.list
+      have hids := h.ids
+      have htags := h.tags
+      simp only [Q.items] at hids htags
+      rw [s1] at hids htags hl
+      have hout_ids : out.map (·.id) = pre.map (·.id) := by
+        rw [s2]; simp [Queue.refresh, Function.comp_def]
+      rw [i5, i4]
+      refine ⟨by simpa using l2, by simpa [Q.items] using l1, ?_, ?_, ?_, ?_, h.closed, h.max, h.ie, h.limit, ?_, ?_, hinv⟩
+      · simp only [Q.items, List.length_append, s2, List.length_map] at hl ⊢
+        omega
+      · simp [hcu]
+      · refine cacheGet_cacheAdd C out rq.cache q.done h.cache ?_ ?_
+        · intro x hx
+          rw [s2] at hx
+          obtain ⟨y, hy, rfl⟩ := List.mem_map.1 hx
+          have hy' : y ∈ q.rest := by rw [s1]; exact List.mem_append_left _ hy
+          have := find_done_none_of_mem_rest h.ids hy' (s3 y hy)
+          simpa [Queue.refresh] using this
+        · rw [hout_ids, ← nzIds_of_all_nz s3]
+          simp only [nzIds_append] at hids
+          exact (List.nodup_append.1 (List.nodup_append.1 hids).2.1).1
+      · simp [h.drained]
+      · simpa [Q.items, s2] using htags
+      · simpa [Q.items, s2, nzIds_append, nzIds_map_refresh] using hids
+
+/-! ### `Read` -/
+
+/-- accumulator of the `Read` loop after an entry that is dropped (expired / exceeds the packet size limit) -/
+def rdDrop (C : Codec) (a : ReadAcc Elem) (v : Elem) (r : Reason) : ReadAcc Elem :=
+  { a with q := { a.q with len := a.q.len - 1 }, cmds := a.cmds ++ [.lrem a.q.key 1 (C.enc v)],
+           evs := a.evs ++ [.dropped v r], qd := a.qd - 1 }
+
+/-- … after a QoS 0 entry (handed out and removed) -/
+def rdPass (C : Codec) (a : ReadAcc Elem) (v : Elem) : ReadAcc Elem :=
+  { a with q := { a.q with len := a.q.len - 1 }, cmds := a.cmds ++ [.lrem a.q.key 1 (C.enc v)],
+           ret := a.ret ++ [v], qd := a.qd - 1 }
+
+/-- … after a QoS 1/2 entry (gets the packet id `p`, stays in the list in front of the cursor) -/
+def rdKeep (C : Codec) (now : Nat) (a : ReadAcc Elem) (v : Elem) (p : Nat) : ReadAcc Elem :=
+  { a with q := { a.q with cur := a.q.cur + 1,
+                           cache := cachePut a.q.cache ((ops C).assign v p now a.q.ie).id (C.enc ((ops C).assign v p now a.q.ie)) },
+           cmds := a.cmds ++ [.lset a.q.key a.q.cur (C.enc ((ops C).assign v p now a.q.ie))],
+           ret := a.ret ++ [(ops C).assign v p now a.q.ie], ind := a.ind + 1 }
+
+theorem readLoop_cons (C : Codec) (now : Nat) (v : Elem) (bs : List Bytes) (pids : List Nat) (a : ReadAcc Elem) :
+    readLoop (ops C) now (C.enc v :: bs) pids a =
+      if Queue.expired now v = true then readLoop (ops C) now bs pids (rdDrop C a v .expired)
+      else if v.size > a.q.limit then readLoop (ops C) now bs pids (rdDrop C a v .oversize)
+      else if (v.qos == 0) = true then readLoop (ops C) now bs pids (rdPass C a v)
+      else match pids with
+        | [] => { a with failed := true }
+        | p :: pids' => readLoop (ops C) now bs pids' (rdKeep C now a v p) := by
+  have hd : (ops C).dec (C.enc v) = some v := C.rt v
+  simp only [readLoop, hd]
+  rfl
+
+/-- with enough packet ids the loop of the memory queue consumes exactly its window -/
+theorem qreadLoop_rest (now ie limit n : Nat) (rest : List Elem) (pids : List Nat) (hn : n ≤ pids.length) :
+    (Queue.readLoop now ie limit n rest pids).rest = rest.drop n ∧
+    (Queue.readLoop now ie limit n rest pids).kept.length ≤ min n rest.length := by
+  fun_induction Queue.readLoop now ie limit n rest pids with
+  | case1 => simp
+  | case2 => simp
+  | case3 n v rest pids h r ih =>
+    obtain ⟨e1, e2⟩ := ih (by omega)
+    refine ⟨by simpa [r] using e1, ?_⟩
+    simp only [List.length_cons, r] at e2 ⊢
+    omega
+  | case4 n v rest pids h1 h2 r ih =>
+    obtain ⟨e1, e2⟩ := ih (by omega)
+    refine ⟨by simpa [r] using e1, ?_⟩
+    simp only [List.length_cons, r] at e2 ⊢
+    omega
+  | case5 n v rest pids h1 h2 h3 r ih =>
+    obtain ⟨e1, e2⟩ := ih (by omega)
+    refine ⟨by simpa [r] using e1, ?_⟩
+    simp only [List.length_cons, r] at e2 ⊢
+    omega
+  | case6 => simp at hn
+  | case7 n v rest h1 h2 h3 p pids' v' r ih =>
+    obtain ⟨e1, e2⟩ := ih (by simp at hn; omega)
+    refine ⟨by simpa [r] using e1, ?_⟩
+    simp only [List.length_cons, r] at e2 ⊢
+    omega
+
+/-- the entries that became in-flight carry supplied packet ids, in order -/
+theorem qreadLoop_kept_ids_sublist (now ie limit n : Nat) (rest : List Elem) (pids : List Nat) :
+    ((Queue.readLoop now ie limit n rest pids).kept.map (·.id)).Sublist pids := by
+  fun_induction Queue.readLoop now ie limit n rest pids with
+  | case1 => simp
+  | case2 => simp
+  | case3 n v rest pids h r ih => exact ih
+  | case4 n v rest pids h1 h2 r ih => exact ih
+  | case5 n v rest pids h1 h2 h3 r ih => exact ih
+  | case6 => simp
+  | case7 n v rest h1 h2 h3 p pids' v' r ih => simpa [v'] using ih.cons_cons p
+
+/-- what stays in the list after the loop: a subsequence (by message identity) of what was there -/
+theorem qreadLoop_kept_rest_sublist (now ie limit n : Nat) (rest : List Elem) (pids : List Nat) :
+    (Queue.tags (Queue.readLoop now ie limit n rest pids).kept ++ Queue.tags (Queue.readLoop now ie limit n rest pids).rest).Sublist
+      (Queue.tags rest) := by
+  fun_induction Queue.readLoop now ie limit n rest pids with
+  | case1 => simp
+  | case2 => simp
+  | case3 n v rest pids h r ih => exact ih.cons _
+  | case4 n v rest pids h1 h2 r ih => exact ih.cons _
+  | case5 n v rest pids h1 h2 h3 r ih => exact ih.cons _
+  | case6 => simp
+  | case7 n v rest h1 h2 h3 p pids' v' r ih => exact ih.cons_cons _
+
+theorem not_mem_of_tags_nodup {D rest : List Elem} {v : Elem} (h : (Queue.tags (D ++ v :: rest)).Nodup) : v ∉ D := by
+  intro hv
+  simp only [Queue.tags_append, Queue.tags_cons] at h
+  have := (List.nodup_append.1 h).2.2 v.tag (List.mem_map.2 ⟨v, hv, rfl⟩) v.tag (by simp)
+  exact this rfl
+
+theorem erase_mid {D rest : List Elem} {v : Elem} (h : v ∉ D) : (D ++ v :: rest).erase v = D ++ rest := by
+  rw [List.erase_append_right _ h, List.erase_cons_head]
+
+theorem tags_nodup_drop_mid {D rest : List Elem} {v : Elem} (h : (Queue.tags (D ++ v :: rest)).Nodup) :
+    (Queue.tags (D ++ rest)).Nodup := by
+  refine List.Sublist.nodup ?_ h
+  exact Queue.tags_sublist (List.Sublist.append_left (List.sublist_cons_self v rest) D)
+
+/-- the loop of `Read` -/
+theorem readLoop_sim (C : Codec) (now ie limit : Nat) (rest : List Elem) (n : Nat) (pids : List Nat) (a : ReadAcc Elem)
+    (hie : a.q.ie = ie) (hlim : a.q.limit = limit) (hn : n ≤ pids.length) :
+    (readLoop (ops C) now ((rest.take n).map C.enc) pids a).failed = a.failed ∧
+    (readLoop (ops C) now ((rest.take n).map C.enc) pids a).evs.map evOf =
+      a.evs.map evOf ++ (Queue.readLoop now ie limit n rest pids).evs ∧
+    (readLoop (ops C) now ((rest.take n).map C.enc) pids a).ret = a.ret ++ (Queue.readLoop now ie limit n rest pids).out ∧
+    (readLoop (ops C) now ((rest.take n).map C.enc) pids a).qd = a.qd + (Queue.readLoop now ie limit n rest pids).qd ∧
+    (readLoop (ops C) now ((rest.take n).map C.enc) pids a).ind = a.ind + (Queue.readLoop now ie limit n rest pids).ind ∧
+    (readLoop (ops C) now ((rest.take n).map C.enc) pids a).q =
+      { a.q with len := a.q.len - (min n rest.length - (Queue.readLoop now ie limit n rest pids).kept.length),
+                 cur := a.q.cur + (Queue.readLoop now ie limit n rest pids).kept.length,
+                 cache := cacheAdd C a.q.cache (Queue.readLoop now ie limit n rest pids).kept } ∧
+    ∃ cs, (readLoop (ops C) now ((rest.take n).map C.enc) pids a).cmds = a.cmds ++ cs ∧
+      ∀ D : List Elem, D.length = a.q.cur → (Queue.tags (D ++ rest)).Nodup →
+        Issues a.q.key cs ((D ++ rest).map C.enc)
+          ((D ++ (Queue.readLoop now ie limit n rest pids).kept ++ (Queue.readLoop now ie limit n rest pids).rest).map C.enc) := by
+  induction rest generalizing n pids a with
+  | nil =>
+    cases n <;>
+      simp only [List.take_nil, List.map_nil, readLoop, Queue.readLoop, List.append_nil, List.length_nil,
+        Nat.add_zero, Int.add_zero, cacheAdd_nil, Nat.min_zero, Nat.sub_zero, true_and] <;>
+      exact ⟨[], by simp, fun D _ _ => Issues.nil _ _⟩
+  | cons v rest ih =>
+    cases n with
+    | zero =>
+      simp only [List.take_zero, List.map_nil, readLoop, Queue.readLoop, List.append_nil, List.length_nil,
+        Nat.add_zero, Int.add_zero, cacheAdd_nil, Nat.zero_min, Nat.sub_zero, true_and]
+      exact ⟨[], by simp, fun D _ _ => Issues.nil _ _⟩
+    | succ n =>
+      rw [List.take_succ_cons, List.map_cons, readLoop_cons]
+      have hmin : min (n + 1) (v :: rest).length = min n rest.length + 1 := by simp [Nat.succ_min_succ]
+      by_cases h1 : Queue.expired now v = true
+      · -- expired: dropped
+        obtain ⟨i1, i2, i3, i4, i5, i6, cs, i7, i8⟩ := ih n pids (rdDrop C a v .expired) hie hlim (by omega)
+        have hk := (qreadLoop_rest now ie limit n rest pids (by omega)).2
+        simp only [h1, if_true, Queue.readLoop]
+        refine ⟨i1, ?_, i3, ?_, i5, ?_, Cmd.lrem a.q.key 1 (C.enc v) :: cs, ?_, ?_⟩
+        · rw [i2]; simp [rdDrop, evOf]
+        · rw [i4]; simp only [rdDrop]; omega
+        · rw [i6, hmin]
+          simp only [rdDrop, RQ.mk.injEq, true_and, and_true]
+          omega
+        · rw [i7]; simp [rdDrop]
+        · intro D hD ht
+          refine Issues.cons (by simp [QCmd]) ?_
+          simp only [lstep]
+          rw [erase_map_enc, erase_mid (not_mem_of_tags_nodup ht)]
+          exact i8 D hD (tags_nodup_drop_mid ht)
+      · by_cases h2 : v.size > a.q.limit
+        · -- exceeds the packet size limit: dropped
+          obtain ⟨i1, i2, i3, i4, i5, i6, cs, i7, i8⟩ := ih n pids (rdDrop C a v .oversize) hie hlim (by omega)
+          have hk := (qreadLoop_rest now ie limit n rest pids (by omega)).2
+          have h2' : v.size > limit := hlim ▸ h2
+          simp only [h1, h2, h2', if_true, Queue.readLoop, Bool.false_eq_true, if_false]
+          refine ⟨i1, ?_, i3, ?_, i5, ?_, Cmd.lrem a.q.key 1 (C.enc v) :: cs, ?_, ?_⟩
+          · rw [i2]; simp [rdDrop, evOf]
+          · rw [i4]; simp only [rdDrop]; omega
+          · rw [i6, hmin]
+            simp only [rdDrop, RQ.mk.injEq, true_and, and_true]
+            omega
+          · rw [i7]; simp [rdDrop]
+          · intro D hD ht
+            refine Issues.cons (by simp [QCmd]) ?_
+            simp only [lstep]
+            rw [erase_map_enc, erase_mid (not_mem_of_tags_nodup ht)]
+            exact i8 D hD (tags_nodup_drop_mid ht)
+        · have h2' : ¬ v.size > limit := hlim ▸ h2
+          by_cases h3 : (v.qos == 0) = true
+          · -- QoS 0: handed out and removed
+            obtain ⟨i1, i2, i3, i4, i5, i6, cs, i7, i8⟩ := ih n pids (rdPass C a v) hie hlim (by omega)
+            have hk := (qreadLoop_rest now ie limit n rest pids (by omega)).2
+            simp only [h1, h2, h2', h3, if_true, Queue.readLoop, Bool.false_eq_true, if_false]
+            refine ⟨i1, ?_, ?_, ?_, i5, ?_, Cmd.lrem a.q.key 1 (C.enc v) :: cs, ?_, ?_⟩
+            · rw [i2]; simp [rdPass]
+            · rw [i3]; simp [rdPass]
+            · rw [i4]; simp only [rdPass]; omega
+            · rw [i6, hmin]
+              simp only [rdPass, RQ.mk.injEq, true_and, and_true]
+              omega
+            · rw [i7]; simp [rdPass]
+            · intro D hD ht
+              refine Issues.cons (by simp [QCmd]) ?_
+              simp only [lstep]
+              rw [erase_map_enc, erase_mid (not_mem_of_tags_nodup ht)]
+              exact i8 D hD (tags_nodup_drop_mid ht)
+          · -- QoS 1/2: gets the next packet id and stays, in front of the cursor
+            cases pids with
+            | nil => simp at hn
+            | cons p pids' =>
+              have hr : (ops C).assign v p now a.q.ie = { v with id := p, exp := if ie != 0 then some (now + ie) else v.exp } := by
+                rw [hie]; rfl
+              obtain ⟨i1, i2, i3, i4, i5, i6, cs, i7, i8⟩ := ih n pids' (rdKeep C now a v p) hie hlim (by simp at hn; omega)
+              have hk := (qreadLoop_rest now ie limit n rest pids' (by simp at hn; omega)).2
+              simp only [h1, h2, h2', h3, Queue.readLoop, Bool.false_eq_true, if_false]
+              refine ⟨i1, ?_, ?_, i4, ?_, ?_, Cmd.lset a.q.key a.q.cur (C.enc ((ops C).assign v p now a.q.ie)) :: cs, ?_, ?_⟩
+              · rw [i2]; simp [rdKeep]
+              · rw [i3]; simp [rdKeep, hr]
+              · rw [i5]; simp only [rdKeep]; omega
+              · rw [i6, hmin]
+                simp only [rdKeep, hr, List.length_cons, cacheAdd_cons, RQ.mk.injEq, true_and, and_true]
+                omega
+              · rw [i7]; simp [rdKeep]
+              · intro D hD ht
+                refine Issues.cons (by simp [QCmd]) ?_
+                simp only [lstep, Int.toNat_natCast, hr]
+                rw [set_map_enc, set_len_append' D v _ rest a.q.cur hD]
+                have h8 := i8 (D ++ [{ v with id := p, exp := if ie != 0 then some (now + ie) else v.exp }])
+                  (by simp [rdKeep, hD]) (by simpa [Queue.tags] using ht)
+                have hkey : (rdKeep C now a v p).q.key = a.q.key := rfl
+                rw [hkey] at h8
+                simpa using h8
+
+/-- the status strings of `Queue.Out` -/
+def statusStr : Status → String
+  | .ok => "ok"
+  | .err => "err"
+  | .panic => "panic"
+  | .blocked => "blocked"
+  | .closed => "closed"
+  | .replaced => "replaced"
+  | .notfound => "notfound"
+
+theorem rest_nil_iff (C : Codec) (rq : RQ) (ds : Dataset) (q : Q) (h : Sim C rq ds q) : rq.cur ≥ rq.len ↔ q.rest = [] := by
+  have hl := h.len
+  have hcu := h.cur
+  simp only [Q.items, List.length_append] at hl
+  rw [hl, hcu]
+  constructor
+  · intro hge
+    exact List.length_eq_zero_iff.1 (by omega)
+  · intro hr
+    simp [hr]
+
+theorem nzIds_sublist {l l' : List Elem} (h : l'.Sublist l) : (nzIds l').Sublist (nzIds l) :=
+  (h.filter _).map _
+
+theorem qread_ok_eq (q : Q) (now : Nat) (pids : List Nat) (hd : q.drained = true) (hc : q.closed = false) (hr : q.rest ≠ []) :
+    q.read now pids =
+      ({ q with done := q.done ++ (Queue.readLoop now q.ie q.limit (min pids.length q.items.length) q.rest pids).kept,
+                rest := (Queue.readLoop now q.ie q.limit (min pids.length q.items.length) q.rest pids).rest },
+       .ok (Queue.readLoop now q.ie q.limit (min pids.length q.items.length) q.rest pids).out
+         ((Queue.readLoop now q.ie q.limit (min pids.length q.items.length) q.rest pids).evs ++
+           [.queued (Queue.readLoop now q.ie q.limit (min pids.length q.items.length) q.rest pids).qd,
+            .inflight (Queue.readLoop now q.ie q.limit (min pids.length q.items.length) q.rest pids).ind])) := by
+    have hre : q.rest.isEmpty = false := by
+      cases hq : q.rest with
+      | nil => exact absurd hq hr
+      | cons x xs => rfl
+    have hie : q.items.isEmpty = false := by
+      cases hq : q.rest with
+      | nil => exact absurd hq hr
+      | cons x xs => simp [Q.items, hq]
+    simp only [Q.read, hd, hc, hre, hie, Bool.not_true, Bool.false_eq_true, if_false, Bool.or_false, Bool.not_false,
+      Bool.and_true]
+
+/-- `Read(pids)`, the branch that reads: `inflightDrained`, not closed, something behind the cursor -/
+theorem sim_read_ok (C : Codec) (rq : RQ) (ds : Dataset) (q : Q) (now : Nat) (pids : List Nat) (h : Sim C rq ds q)
+    (h0 : ∀ p ∈ pids, p ≠ 0) (hnd : pids.Nodup) (hfresh : ∀ p ∈ pids, p ∉ nzIds q.items)
+    (hd : q.drained = true) (hc : q.closed = false) (hr : q.rest ≠ []) :
+    (read (ops C) rq ds now pids).evs.map evOf =
+      (Queue.readLoop now q.ie q.limit (min pids.length q.items.length) q.rest pids).evs ++
+        [.queued (Queue.readLoop now q.ie q.limit (min pids.length q.items.length) q.rest pids).qd,
+         .inflight (Queue.readLoop now q.ie q.limit (min pids.length q.items.length) q.rest pids).ind] ∧
+    (read (ops C) rq ds now pids).ret = (Queue.readLoop now q.ie q.limit (min pids.length q.items.length) q.rest pids).out ∧
+    (read (ops C) rq ds now pids).status = .ok ∧
+    Sim C (read (ops C) rq ds now pids).q (applyAll ds (read (ops C) rq ds now pids).cmds)
+      { q with done := q.done ++ (Queue.readLoop now q.ie q.limit (min pids.length q.items.length) q.rest pids).kept,
+               rest := (Queue.readLoop now q.ie q.limit (min pids.length q.items.length) q.rest pids).rest } := by
+  have hinv := Queue.step_inv q (.read now pids) h0 h.inv
+  have hread := qread_ok_eq q now pids hd hc hr
+  simp only [Queue.step, hread] at hinv
+  have hge : ¬ (rq.cur ≥ rq.len) := fun hge => hr ((rest_nil_iff C rq ds q h).1 hge)
+  have hl := h.len
+  have hcu := h.cur
+  simp only [Q.items, List.length_append] at hl
+  have hrd : rq.drained = true := h.drained.trans hd
+  have hrc : rq.closed = false := h.closed.trans hc
+  by_cases hp : pids = []
+  · subst hp
+    simp only [read, hrd, hrc, hge, decide_false, Bool.not_true, Bool.false_eq_true, if_false, Bool.false_and,
+      List.isEmpty_nil, if_true, List.length_nil, Nat.zero_min, Queue.readLoop, List.append_nil, List.nil_append,
+      List.map_cons, List.map_nil, evOf, true_and]
+    exact h
+  · have hpe : pids.isEmpty = false := by
+      cases pids with
+      | nil => exact absurd rfl hp
+      | cons x xs => rfl
+    have hppos : 0 < pids.length := List.length_pos_iff.2 hp
+    have hwin : lrange (q.items.map C.enc) (rq.cur : Int) (((rq.cur + pids.length : Nat) : Int) - 1)
+        = (q.rest.take (min pids.length q.items.length)).map C.enc := by
+      rw [window_eq C rq ds q h pids.length hppos, take_min_of_le]
+      simp [Q.items]
+    obtain ⟨i1, i2, i3, i4, i5, i6, cs, i7, i8⟩ := readLoop_sim C now q.ie q.limit q.rest (min pids.length q.items.length) pids
+      { q := rq } h.ie h.limit (Nat.min_le_left _ _)
+    obtain ⟨m1, m2⟩ := qreadLoop_rest now q.ie q.limit (min pids.length q.items.length) q.rest pids (Nat.min_le_left _ _)
+    have m3 := qreadLoop_kept_ids_sublist now q.ie q.limit (min pids.length q.items.length) q.rest pids
+    have m4 := qreadLoop_kept_rest_sublist now q.ie q.limit (min pids.length q.items.length) q.rest pids
+    have m5 := Queue.readLoop_suffix now q.ie q.limit (min pids.length q.items.length) q.rest pids
+    simp only [read, hrd, hrc, hge, decide_false, Bool.not_true, Bool.false_eq_true, if_false, Bool.false_and, hpe,
+      h.list, hwin, i1]
+    refine ⟨?_, i3.trans (by simp), by first | rfl | trivial, ?_⟩
+    · rw [List.map_append, i2]
+      simp only [List.map_cons, List.map_nil, evOf, i4, i5]
+      simp
+    generalize Queue.readLoop now q.ie q.limit (min pids.length q.items.length) q.rest pids = r at *
+    have hkz : ∀ e ∈ r.kept, e.id ≠ 0 := fun e he => h0 _ (m3.subset (List.mem_map.2 ⟨e, he, rfl⟩))
+    have hiss : Issues rq.key (Cmd.lrange rq.key (rq.cur : Int) (((rq.cur + pids.length : Nat) : Int) - 1) :: cs)
+        (q.items.map C.enc) ((q.done ++ r.kept ++ r.rest).map C.enc) :=
+      Issues.cons (by simp [QCmd]) (by simpa [lstep, Q.items] using i8 q.done hcu.symm (by simpa [Q.items] using h.tags))
+    obtain ⟨l1, l2⟩ := hiss.listAt ds h.nodup h.list
+    have hids := h.ids
+    have htags := h.tags
+    simp only [Q.items, nzIds_append] at hids
+    simp only [Q.items, Queue.tags_append] at htags
+    rw [i7, i6]
+    refine ⟨by simpa using l2, by simpa [Q.items] using l1, ?_, ?_, ?_, h.drained, h.closed, h.max, h.ie, h.limit, ?_, ?_, hinv⟩
+    · have : r.rest.length = q.rest.length - min pids.length q.items.length := by rw [m1]; simp
+      simp only [Q.items, List.length_append] at this ⊢
+      omega
+    · simp [hcu]
+    · refine cacheGet_cacheAdd C r.kept rq.cache q.done h.cache ?_ (m3.nodup hnd)
+      intro x hx
+      apply find_none_of_not_mem_ids
+      intro hmem
+      obtain ⟨y, hy, hyx⟩ := List.mem_map.1 hmem
+      have hxp : x.id ∈ pids := m3.subset (List.mem_map.2 ⟨x, hx, rfl⟩)
+      refine hfresh x.id hxp ?_
+      rw [← hyx]
+      exact mem_nzIds_of_mem (by simp [Q.items, hy]) (by rw [hyx]; exact h0 _ hxp)
+    · simp only [Q.items, Queue.tags_append, List.append_assoc]
+      exact List.Sublist.nodup (List.Sublist.append_left m4 _) htags
+    · simp only [Q.items, nzIds_append, List.append_assoc]
+      rw [nzIds_of_all_nz hkz]
+      have hrest : (nzIds r.rest).Sublist (nzIds q.rest) := nzIds_sublist m5.sublist
+      have hfr : ∀ a ∈ r.kept.map (·.id), a ∉ nzIds q.items := fun a ha => hfresh a (m3.subset ha)
+      simp only [Q.items, nzIds_append, List.mem_append, not_or] at hfr
+      obtain ⟨n1, n2, n3⟩ := List.nodup_append.1 hids
+      refine List.nodup_append.2 ⟨n1, List.nodup_append.2 ⟨m3.nodup hnd, hrest.nodup n2, ?_⟩, ?_⟩
+      · intro a ha b hb hab
+        exact (hfr a ha).2 (hab ▸ hrest.subset hb)
+      · intro a ha b hb hab
+        rcases List.mem_append.1 hb with hb | hb
+        · exact (hfr b hb).1 (hab ▸ ha)
+        · exact n3 a ha b (hrest.subset hb) hab
+
+/-- `Read(pids)`, all branches (panic before the drain, would block, closed, reads): the same notifier calls, returned
+    elements and status as the memory queue, and the relation is kept -/
+theorem sim_read (C : Codec) (rq : RQ) (ds : Dataset) (q : Q) (now : Nat) (pids : List Nat) (h : Sim C rq ds q)
+    (h0 : ∀ p ∈ pids, p ≠ 0) (hnd : pids.Nodup) (hfresh : ∀ p ∈ pids, p ∉ nzIds q.items) :
+    (read (ops C) rq ds now pids).evs.map evOf = (Queue.step q (.read now pids)).2.evs ∧
+    (read (ops C) rq ds now pids).ret = (Queue.step q (.read now pids)).2.returned ∧
+    statusStr (read (ops C) rq ds now pids).status = (Queue.step q (.read now pids)).2.status ∧
+    Sim C (read (ops C) rq ds now pids).q (applyAll ds (read (ops C) rq ds now pids).cmds)
+      (Queue.step q (.read now pids)).1 := by
+  cases hd : q.drained with
+  | false =>
+    have hrd : rq.drained = false := h.drained.trans hd
+    have hread : q.read now pids = (q, .panic) := by simp [Q.read, hd]
+    have hred : read (ops C) rq ds now pids = { q := rq, status := .panic } := by simp [read, hrd]
+    rw [hred]
+    simp only [Queue.step, hread]
+    exact ⟨by first | rfl | trivial, by first | rfl | trivial, by first | rfl | trivial, h⟩
+  | true =>
+    have hrd : rq.drained = true := h.drained.trans hd
+    cases hc : q.closed with
+    | true =>
+      have hrc : rq.closed = true := h.closed.trans hc
+      have hread : q.read now pids = (q, .closed) := by simp [Q.read, hd, hc]
+      have hred : read (ops C) rq ds now pids = { q := rq, status := .closed } := by simp [read, hrd, hrc]
+      rw [hred]
+      simp only [Queue.step, hread]
+      exact ⟨by first | rfl | trivial, by first | rfl | trivial, by first | rfl | trivial, h⟩
+    | false =>
+      have hrc : rq.closed = false := h.closed.trans hc
+      by_cases hr : q.rest = []
+      · have hge : rq.cur ≥ rq.len := (rest_nil_iff C rq ds q h).2 hr
+        have hread : q.read now pids = (q, .blocked) := by simp [Q.read, hd, hc, hr]
+        have hred : read (ops C) rq ds now pids = { q := rq, status := .blocked } := by simp [read, hrd, hrc, hge]
+        rw [hred]
+        simp only [Queue.step, hread]
+        exact ⟨by first | rfl | trivial, by first | rfl | trivial, by first | rfl | trivial, h⟩
+      · obtain ⟨r1, r2, r3, r4⟩ := sim_read_ok C rq ds q now pids h h0 hnd hfresh hd hc hr
+        have hread := qread_ok_eq q now pids hd hc hr
+        simp only [Queue.step, hread]
+        rw [r3]
+        exact ⟨r1, r2, rfl, r4⟩
+
+/-! ### `Add` on a full queue: the drop ladder -/
+
+theorem zip_map_enc (C : Codec) (l : List Elem) : (l.map C.enc).zip l = l.map (fun v => (C.enc v, v)) := by
+  induction l with
+  | nil => rfl
+  | cons x l ih => simp [List.zip_cons_cons, ih]
+
+theorem findFirst_pairs (C : Codec) (p : Elem → Bool) (l : List Elem) :
+    findFirst p (l.map (fun v => (C.enc v, v))) = (l.find? p).map (fun v => (C.enc v, v)) := by
+  induction l with
+  | nil => rfl
+  | cons x l ih =>
+    cases hp : p x
+    · simp [findFirst, hp, ih]
+    · simp [findFirst, hp]
+
+/-- the redis queue walks the same ladder and picks the same victim as the memory queue -/
+theorem chooseVictim_eq (C : Codec) (rq : RQ) (ds : Dataset) (q : Q) (now : Nat) (e : Elem) (h : Sim C rq ds q) :
+    chooseVictim (ops C) rq now e ((q.items.map C.enc).zip q.items) =
+      match Queue.chooseVictim q now e with
+      | .inflight v _ => .inflight (C.enc v) v
+      | .queued v r _ => .queued (C.enc v) v r
+      | .newcomer => .newcomer := by
+  have htake : (q.items.map (fun v => (C.enc v, v))).take rq.cur = q.done.map (fun v => (C.enc v, v)) := by
+    rw [h.cur, ← List.map_take]; simp [Q.items]
+  have hdrop : (q.items.map (fun v => (C.enc v, v))).drop rq.cur = q.rest.map (fun v => (C.enc v, v)) := by
+    rw [h.cur, ← List.map_drop]; simp [Q.items]
+  have e1 : (ops C).expired now = Queue.expired now := rfl
+  have e4 : isQueued (ops C) = Queue.isQueued := rfl
+  have e5 : ∀ x, (ops C).qos x = x.qos := fun _ => rfl
+  rw [Queue.chooseVictim_spec, zip_map_enc]
+  simp only [chooseVictim, htake, hdrop, findFirst_pairs, e1, e4, e5]
+  cases h1 : q.done.find? (Queue.expired now) with
+  | some v => rfl
+  | none =>
+    simp only [Option.map_none]
+    by_cases hd : (rq.drained && decide (rq.cur ≥ rq.len)) = true
+    · simp only [hd, if_true]
+      simp only [Bool.and_eq_true, decide_eq_true_eq] at hd
+      have hr : q.rest = [] := (rest_nil_iff C rq ds q h).1 hd.2
+      simp [hr]
+    · simp only [hd, Bool.false_eq_true, if_false]
+      cases h2 : q.rest.find? (fun x => Queue.isQueued x && Queue.expired now x) with
+      | some v => rfl
+      | none =>
+        cases h3 : q.rest.find? (fun x => Queue.isQueued x && x.qos == 0) with
+        | some v => rfl
+        | none =>
+          simp only [Option.map_none]
+          by_cases hq : (e.qos == 0) = true
+          · simp only [hq, if_true]
+          · simp only [hq, Bool.false_eq_true, if_false]
+            cases h4 : q.rest.find? Queue.isQueued <;> rfl
+
+/-- with distinct packet ids, an entry is the first one carrying its id -/
+theorem find_id_of_mem {l : List Elem} {v : Elem} (hv : v ∈ l) (h0 : v.id ≠ 0) (hn : (nzIds l).Nodup) :
+    l.find? (fun x => x.id == v.id) = some v := by
+  induction l with
+  | nil => simp at hv
+  | cons x l ih =>
+    by_cases hx : x = v
+    · subst hx; simp
+    · have hvl : v ∈ l := by
+        rcases List.mem_cons.1 hv with e | e
+        · exact absurd e.symm hx
+        · exact e
+      have hxid : ¬ x.id = v.id := by
+        intro e
+        have hx0 : (x.id != 0) = true := by simp [e, h0]
+        simp only [nzIds, List.filter_cons, hx0, if_true, List.map_cons, List.nodup_cons] at hn
+        exact hn.1 (e ▸ mem_nzIds_of_mem hvl h0)
+      have hb : (x.id == v.id) = false := by simp [hxid]
+      simp only [List.find?_cons, hb]
+      apply ih hvl
+      simp only [nzIds, List.filter_cons] at hn
+      split at hn
+      · exact (List.nodup_cons.mp hn).2
+      · exact hn
+
+theorem extractFirst_some_iff {p : Elem → Bool} {l l' : List Elem} {v : Elem} (h : extractFirst p l = some (v, l')) :
+    l.find? p = some v ∧ l' = l.eraseP p := by
+  rw [Queue.extractFirst_eq] at h
+  cases hf : l.find? p with
+  | none => simp [hf] at h
+  | some w =>
+    simp only [hf, Option.map_some, Option.some.injEq, Prod.mk.injEq] at h
+    exact ⟨by rw [h.1], h.2.symm⟩
+
+theorem tags_nodup_snoc {l : List Elem} {e : Elem} (h : (Queue.tags l).Nodup) (he : e.tag ∉ Queue.tags l) :
+    (Queue.tags (l ++ [e])).Nodup := by
+  simp only [Queue.tags_append, Queue.tags_cons, Queue.tags_nil]
+  refine List.nodup_append.mpr ⟨h, by simp, ?_⟩
+  intro a ha b hb
+  simp only [List.mem_singleton] at hb
+  subst hb
+  exact fun hab => he (hab ▸ ha)
+
+theorem nzIds_snoc_zero (l : List Elem) {e : Elem} (he : e.id = 0) : nzIds (l ++ [e]) = nzIds l := by
+  rw [nzIds_append]
+  simp [nzIds, he]
+
+/-- `Add` on a full queue: the drop ladder picks the same victim, removes it with `LREM 1 <bytes>` and appends the newcomer
+    with RPUSH; the same notifier calls -/
+theorem sim_add_full (C : Codec) (rq : RQ) (ds : Dataset) (q : Q) (now : Nat) (e : Elem) (h : Sim C rq ds q)
+    (hfull : q.max ≤ q.items.length) (hpub : e.pub = true) (hid : e.id = 0) (htag : e.tag ∉ Queue.tags q.items) :
+    (add (ops C) rq ds now e).evs.map evOf = (q.add now e).2 ∧ (add (ops C) rq ds now e).status = .ok ∧
+      Sim C (add (ops C) rq ds now e).q (applyAll ds (add (ops C) rq ds now e).cmds) (q.add now e).1 := by
+  have hinv := Queue.step_inv q (.add now e) ⟨hpub, hid⟩ h.inv
+  have hf : rq.len ≥ rq.max := by rw [h.len, h.max]; exact hfull
+  have hf' : q.items.length ≥ q.max := hfull
+  have hcv := chooseVictim_eq C rq ds q now e h
+  have hl := h.len
+  have hcu := h.cur
+  have hids := h.ids
+  have htags := h.tags
+  simp only [Q.items, List.length_append] at hl
+  simp only [Queue.step, Q.add, hf', if_true] at hinv
+  simp only [add, hf, if_true, h.list, decodeAll_map, hcv, Q.add, hf']
+  rcases Queue.chooseVictim_cases q now e with ⟨v, d, hx, hc⟩ | ⟨v, r, rest', p, hx, hp, hc⟩ | hc
+  · -- an expired in-flight entry, in front of the cursor
+    obtain ⟨hfind, rfl⟩ := extractFirst_some_iff hx
+    simp only [hc] at hinv ⊢
+    refine ⟨rfl, trivial, ?_⟩
+    have hvd : v ∈ q.done := List.mem_of_find?_eq_some hfind
+    have hv0 : v.id ≠ 0 := h.inv.1 v hvd
+    have hnd : (nzIds q.done).Nodup := by
+      simp only [Q.items, nzIds_append] at hids
+      exact (List.nodup_append.mp hids).1
+    have hers : q.done.eraseP (Queue.expired now) = q.done.eraseP (fun x => x.id == v.id) := by
+      rw [← erase_eq_eraseP_of_find hfind, erase_eq_eraseP_of_find (find_id_of_mem hvd hv0 hnd)]
+    have hitems : q.items.erase v = q.done.eraseP (Queue.expired now) ++ q.rest := by
+      simp only [Q.items]
+      rw [List.erase_append_left _ hvd, erase_eq_eraseP_of_find hfind]
+    have hlen : (q.done.eraseP (Queue.expired now)).length = q.done.length - 1 :=
+      List.length_eraseP_of_mem hvd (List.find?_some hfind)
+    have hpos : 0 < q.done.length := List.length_pos_of_mem hvd
+    have hsub : (q.done.eraseP (Queue.expired now) ++ q.rest).Sublist q.items :=
+      List.Sublist.append_right List.eraseP_sublist _
+    have hiss : Issues rq.key [Cmd.lrange rq.key 0 (-1), Cmd.lrem rq.key 1 (C.enc v), Cmd.rpush rq.key (C.enc e)]
+        (q.items.map C.enc) ((q.done.eraseP (Queue.expired now) ++ (q.rest ++ [e])).map C.enc) := by
+      refine ⟨by simp [QCmd], ?_⟩
+      simp only [List.foldl_cons, List.foldl_nil, lstep, erase_map_enc, hitems]
+      simp
+    obtain ⟨l1, l2⟩ := hiss.listAt ds h.nodup h.list
+    refine ⟨l2, l1, ?_, ?_, ?_, h.drained, h.closed, h.max, h.ie, h.limit, ?_, ?_, hinv⟩
+    · simp only [Q.items, List.length_append, hlen, List.length_cons, List.length_nil]; omega
+    · simp only [hlen]; omega
+    · intro id
+      show cacheGet (cacheDel rq.cache v.id) id = _
+      rw [cacheGet_del, h.cache id, hers]
+      by_cases hidv : id = v.id
+      · subst hidv
+        simp [find_eraseP_none q.done v.id hv0 hnd]
+      · simp [hidv, find_eraseP_ne q.done v.id id hidv]
+    · have : ({ q with done := q.done.eraseP (Queue.expired now), rest := q.rest ++ [e] } : Q).items =
+          (q.done.eraseP (Queue.expired now) ++ q.rest) ++ [e] := by simp [Q.items]
+      rw [this]
+      exact tags_nodup_snoc ((Queue.tags_sublist hsub).nodup htags)
+        (fun hm => htag ((Queue.tags_sublist hsub).subset hm))
+    · have : ({ q with done := q.done.eraseP (Queue.expired now), rest := q.rest ++ [e] } : Q).items =
+          (q.done.eraseP (Queue.expired now) ++ q.rest) ++ [e] := by simp [Q.items]
+      rw [this, nzIds_snoc_zero _ hid]
+      exact (nzIds_sublist hsub).nodup hids
+  · -- a queued message behind the cursor (expired / QoS 0 / the oldest)
+    obtain ⟨hfind, rfl⟩ := extractFirst_some_iff hx
+    simp only [hc] at hinv ⊢
+    refine ⟨rfl, trivial, ?_⟩
+    have hvr : v ∈ q.rest := List.mem_of_find?_eq_some hfind
+    have hvd : v ∉ q.done := by
+      obtain ⟨s1, s2, hs⟩ := List.append_of_mem hvr
+      simp only [Q.items, hs] at htags
+      rw [← List.append_assoc] at htags
+      intro hm
+      exact not_mem_of_tags_nodup htags (List.mem_append_left _ hm)
+    have hitems : q.items.erase v = q.done ++ q.rest.eraseP p := by
+      simp only [Q.items]
+      rw [List.erase_append_right _ hvd, erase_eq_eraseP_of_find hfind]
+    have hlen : (q.rest.eraseP p).length = q.rest.length - 1 :=
+      List.length_eraseP_of_mem hvr (List.find?_some hfind)
+    have hpos : 0 < q.rest.length := List.length_pos_of_mem hvr
+    have hsub : (q.done ++ q.rest.eraseP p).Sublist q.items :=
+      List.Sublist.append_left List.eraseP_sublist _
+    have hiss : Issues rq.key [Cmd.lrange rq.key 0 (-1), Cmd.lrem rq.key 1 (C.enc v), Cmd.rpush rq.key (C.enc e)]
+        (q.items.map C.enc) ((q.done ++ (q.rest.eraseP p ++ [e])).map C.enc) := by
+      refine ⟨by simp [QCmd], ?_⟩
+      simp only [List.foldl_cons, List.foldl_nil, lstep, erase_map_enc, hitems]
+      simp
+    obtain ⟨l1, l2⟩ := hiss.listAt ds h.nodup h.list
+    have hit : ({ q with rest := q.rest.eraseP p ++ [e] } : Q).items = (q.done ++ q.rest.eraseP p) ++ [e] := by
+      simp [Q.items]
+    refine ⟨l2, l1, ?_, hcu, h.cache, h.drained, h.closed, h.max, h.ie, h.limit, ?_, ?_, hinv⟩
+    · simp only [Q.items, List.length_append, hlen, List.length_cons, List.length_nil]; omega
+    · rw [hit]
+      exact tags_nodup_snoc ((Queue.tags_sublist hsub).nodup htags)
+        (fun hm => htag ((Queue.tags_sublist hsub).subset hm))
+    · rw [hit, nzIds_snoc_zero _ hid]
+      exact (nzIds_sublist hsub).nodup hids
+  · -- the newcomer itself
+    simp only [hc] at hinv ⊢
+    refine ⟨rfl, trivial, ?_⟩
+    have hiss : Issues rq.key [Cmd.lrange rq.key 0 (-1)] (q.items.map C.enc) (q.items.map C.enc) :=
+      ⟨by simp [QCmd], rfl⟩
+    obtain ⟨l1, l2⟩ := hiss.listAt ds h.nodup h.list
+    exact ⟨l2, l1, h.len, h.cur, h.cache, h.drained, h.closed, h.max, h.ie, h.limit, h.tags, h.ids, h.inv⟩
+
+/-! ### the operations that touch at most one entry, in the shape the dispatcher needs -/
+
+/-- `Remove(pid)` without the side condition `pid ≠ 0`: no entry in front of the cursor has packet id 0, so `Remove(0)` finds
+    nothing on either side -/
+theorem sim_remove_any (C : Codec) (rq : RQ) (ds : Dataset) (q : Q) (pid : Nat) (h : Sim C rq ds q) :
+    ((remove rq pid : Res Elem).evs.map evOf = (q.remove pid).2.1) ∧ (remove rq pid : Res Elem).status = .ok ∧
+      Sim C (remove rq pid : Res Elem).q (applyAll ds (remove rq pid : Res Elem).cmds) (q.remove pid).1 := by
+  by_cases hpid : pid = 0
+  · subst hpid
+    have hnone : q.done.find? (fun x => x.id == 0) = none := by
+      rw [List.find?_eq_none]
+      intro x hx hx0
+      exact h.inv.1 x hx (by simpa using hx0)
+    have hc := h.cache 0
+    rw [hnone] at hc
+    simp only [Option.map_none] at hc
+    rw [qremove_eq, hnone]
+    simp only [remove, hc]
+    exact ⟨rfl, trivial, h⟩
+  · exact sim_remove C rq ds q pid h hpid
+
+theorem add_ret (C : Codec) (rq : RQ) (ds : Dataset) (now : Nat) (e : Elem) : (add (ops C) rq ds now e).ret = [] := by
+  unfold add
+  split
+  · split
+    · rfl
+    · split
+      · rfl
+      · split <;> rfl
+  · rfl
+
+theorem remove_ret (rq : RQ) (pid : Nat) : (remove rq pid : Res Elem).ret = [] := by
+  unfold remove
+  split <;> rfl
+
+theorem replace_ret_evs (C : Codec) (rq : RQ) (ds : Dataset) (e : Elem) :
+    (replace (ops C) rq ds e).ret = [] ∧ (replace (ops C) rq ds e).evs = [] := by
+  unfold replace
+  split
+  · exact ⟨rfl, rfl⟩
+  · split
+    · exact ⟨rfl, rfl⟩
+    · split <;> exact ⟨rfl, rfl⟩
+
+theorem init_ret_evs (rq : RQ) (ds : Dataset) (clean : Bool) (limit : Nat) :
+    (init rq ds clean limit : Res Elem).ret = [] ∧ (init rq ds clean limit : Res Elem).evs = [] := by
+  simp only [init]
+  split <;> exact ⟨rfl, rfl⟩
+
+theorem step_remove_eq (q : Q) (pid : Nat) :
+    (Queue.step q (.remove pid)).1 = (q.remove pid).1 ∧ (Queue.step q (.remove pid)).2.evs = (q.remove pid).2.1 ∧
+      (Queue.step q (.remove pid)).2.returned = [] ∧ (Queue.step q (.remove pid)).2.status = "ok" := by
+  rcases hr : q.remove pid with ⟨q', evs, _ | v⟩ <;> simp [Queue.step, hr]
+
+theorem step_replace_eq (q : Q) (e : Elem) :
+    (Queue.step q (.replace e)).1 = (q.replace e).1 ∧ (Queue.step q (.replace e)).2.evs = [] ∧
+      (Queue.step q (.replace e)).2.returned = [] ∧
+      (Queue.step q (.replace e)).2.status = (if (q.replace e).2 then "replaced" else "notfound") := by
+  rcases hr : q.replace e with ⟨q', _ | _⟩ <;> simp [Queue.step, hr]
 
 end GmqttVerif.RedisQueue
